@@ -75,6 +75,17 @@ def run_C05(res):
     for p in ps0:
         P = Pos(p)
         ps.append(str(P.with_(frc=rnd.choice([0, 1]))))
+    # castling set-ups with the mover's king on its e-file home square and a right, Chess960 rook files, either colour, in BOTH notations
+    # (the conventional strings e1g1 … are a fallback that only matters when UCI_Chess960 is on and the rook is not in the corner)
+    extra = [l for l in run_driver([f"gpattern {res.seed + 41} 0 {1500 * res.escalate if res.tier == 'quick' else 20000} 1"]) if l and l != "bad-op"]
+    extra = [p for p in extra if (Pos(p).piece(5) & Pos(p).c0).bit_length() - 1 == 4 and (Pos(p).t[12] == "1" or Pos(p).t[13] == "1")]
+    okx = in_domain(extra)
+    extra = [p for p, o in zip(extra, okx) if o][: (250 if res.tier == "quick" else 4000)]
+    res.count("e_file_king_castling_setups", len(extra))
+    for p in extra:
+        ps.append(str(Pos(p).with_(frc=1)))
+        ps.append(str(Pos(p).with_(frc=0)))
+    ps = list(dict.fromkeys(ps))
     legal = [parse_moves(s) for s in run_driver_par(["smoves " + p for p in ps])]
     reqs, meta = [], []
     for p, ml in zip(ps, legal):
